@@ -59,6 +59,7 @@ class ReqSim(Sim):
                 fut.set_result(ConnectionRefusedError('refused'))
             else:
                 ep = fakes.Endpoint(self.net, peername=(host, port), sockname=('10.0.0.1', 50002), label='peer')
+                ep.obf = bool(port) and port == (sc.get('ports') or [0, 0])[1]
                 if d == 'initfail':
                     ep.drain_error = ConnectionResetError('reset')
                 self.peer_eps.append(ep)
@@ -164,7 +165,7 @@ class ReqSim(Sim):
         other_w = len(n._expected_response_futures) - ccw
         inits = []
         for ep in self.peer_eps:
-            for fr in ep.frames(obfuscated=False):
+            for fr in ep.frames(obfuscated=getattr(ep, 'obf', False)):
                 try:
                     m = PeerInitializationMessage.deserialize_request(fr)
                     inits.append([type(m).__qualname__, getattr(m, 'typ', None), getattr(m, 'ticket', None)])
